@@ -280,6 +280,14 @@ func registerRules(c *core.Ctx, r *core.Report, rule string) {
 				bad = "left the model: " + u
 			}
 		}
+		if bad != "" {
+			// another representation than the sync2.Map the table above watches: the same rows, read off the state
+			if bad2, runs2 := registerTableByState(c, T, reg, nameFn); bad2 == "" && runs2 > 0 {
+				bad, runs = "", runs+runs2
+			} else {
+				bad += " | by state: " + bad2
+			}
+		}
 		smallModelCheck(c, r, rule, "register@"+core.FnName(reg), reg, 1)
 		r.Check(bad == "", rule, "register@"+core.FnName(reg), c.FnPos(reg), fmt.Sprintf("RegisterSingleton stores under the component's name only on a miss, ignores re-registration of the same object and reports a different one through Panicf without storing it - whether Panicf panics or, at log level fatal, returns (%d abstract runs) %s", runs, bad))
 	}
